@@ -630,4 +630,21 @@ theorem sum_sums : ∀ (gs : List (Int × List Pt)),
   | g :: gs => by
     simp only [List.map_cons, List.sum_cons, List.flatMap_cons, List.map_append, List.sum_append, sum_sums gs]
 
+/-- a strictly increasing list lies between its first and last element -/
+theorem sorted_bounds (l : List Int) (a b : Int) (hs : l.Pairwise (· < ·)) (hh : l.head? = some a)
+    (hl : l.getLast? = some b) : ∀ t ∈ l, a ≤ t ∧ t ≤ b := by
+  intro t ht
+  constructor
+  · cases l with
+    | nil => simp at hh
+    | cons x xs =>
+      simp only [List.head?_cons, Option.some.injEq] at hh; subst hh
+      rcases List.mem_cons.mp ht with h | h
+      · omega
+      · exact Int.le_of_lt ((List.pairwise_cons.mp hs).1 t h)
+  · obtain ⟨ys, rfl⟩ := List.getLast?_eq_some_iff.mp hl
+    rcases List.mem_append.mp ht with h | h
+    · exact Int.le_of_lt ((List.pairwise_append.mp hs).2.2 t h b (by simp))
+    · simp at h; omega
+
 end Thanos.Downsample
